@@ -230,7 +230,14 @@ def _unbalanced_448(script, ev):
     return (k * k + 1).bit_length() > 223 and k.bit_length() <= 126
 
 
+def _split_of_zero(script, ev):
+    n = 2**446 - 13818066809895115352007386748515426880336692474882178609894547503885
+    k = _split_operand(script, ev)
+    return k is not None and k % n == 0
+
+
 INPUT_CLASSES = {
+    "split_of_zero": _split_of_zero,
     "sc448_split_short_k": _unbalanced_448,
 }
 
